@@ -622,7 +622,7 @@ int main(int argc, char **argv) {
 	{
 		bool q = ctx.quick();
 		auto add = [&](int scheme, size_t n, size_t t, long kk_alter, int mode = 0) {
-			Scenario s; s.scheme = scheme; s.n = n; s.t = t; s.faulty = {mode ? n - 1 : (size_t)(kk_alter % (long)n)};   // minus-q: the highest index (a negative summand is then not absorbed by a later wrap of the running sum) s.fmode = FM_BCALT; s.alter_k = kk_alter; s.alter_mode = mode; s.keygen_faulty = 0;
+			Scenario s; s.scheme = scheme; s.n = n; s.t = t; s.faulty = {mode ? n - 1 : (size_t)(kk_alter % (long)n)}; /* minus-q: the highest index (a negative summand is then not absorbed by a later wrap of the running sum) */ s.fmode = FM_BCALT; s.alter_k = kk_alter; s.alter_mode = mode; s.keygen_faulty = 0;
 			long kk = k++; if (!case_begin(kk, s.desc())) return; do_run_case(kk, s);
 		};
 		if (q) {
